@@ -43,3 +43,9 @@ OBLIG = ["QuillModel.Obligations.BackendA"]
 # per property (a broken fact of C08 is not C03's broken tie)
 OBLIG_BY_PROP = {"C03": ["QuillModel.Obligations.BackendA_C03", "QuillModel.Obligations.BackendA_Common"], "C10": ["QuillModel.Obligations.BackendA_C10", "QuillModel.Obligations.BackendA_Common"],
                  "C08": ["QuillModel.Obligations.BackendA_C08", "QuillModel.Obligations.BackendA_Common"]}
+# lift round (w2_lifts): every sink fault reported exactly once over whole runs (Props/C10Faults.lean; balance skeleton
+# Backend/LiftBal.lean on the PC skeleton, notification texts Backend/LiftNote.lean)
+THEOREMS["C10"] += ["Backend.C10_write_faults_reported_once", "Backend.C10_write_faults_reported_once_from",
+                    "Backend.C10_flush_faults_reported_once", "Backend.C10_flush_faults_reported_once_from",
+                    "Backend.PC.bal_runOps", "Backend.PC.BalInv.closed"]
+MODULES["C10"] += ["QuillModel.Props.C10Faults"]
